@@ -17,6 +17,7 @@ import (
 var (
 	backgroundImageRegex = regexp.MustCompile(`(?:\(['"]?)(.*?)(?:['"]?\))`)
 	urlRegex             = regexp.MustCompile(`(?m)url\((.*?)\)`)
+	percentEscapeRegex   = regexp.MustCompile(`%[0-9A-Fa-f]{2}`)
 )
 
 func IsHTML(URL *models.URL) bool {
@@ -140,7 +141,7 @@ func HTMLAssets(item *models.Item) (assets []*models.URL, err error) {
 					matchFound := matches[match][1]
 
 					// Don't extract CSS elements that aren't URLs
-					if strings.Contains(matchFound, "%") ||
+					if (strings.Contains(matchFound, "%") && !percentEscapeRegex.MatchString(matchFound)) ||
 						strings.HasPrefix(matchFound, "0.") ||
 						strings.HasPrefix(matchFound, "--font") ||
 						strings.HasPrefix(matchFound, "--size") ||
